@@ -12,6 +12,7 @@ of a finite set of atoms per run). A branch on a value the valuation does not de
 No repository code runs: this interprets the MIR facts dumped by the driver.
 """
 import copy
+import re
 from . import mir
 
 TOP = ("top",)
@@ -817,6 +818,20 @@ class Interp:
             return self.call_body(cl[1], [selfv] + list(argv), depth + 1)
         if cl is not None and cl[0] == "fn" and cl[1] in self.f.bodies:
             return self.call_body(cl[1], list(argv), depth + 1)
+        if cl is not None and cl[0] == "fn":
+            # a foreign function item used as a callback (`.filter_map(Result::ok)`, `.map(Bytes::from)`): the same call the
+            # closure `|x| f(x)` would make
+            path = cl[1]
+            short = re.sub(r"<.*>", "", path).split("::")[-1] if "::" in path else path
+            if short in ("Ok", "Some", "Err") and len(argv) == 1:
+                return {"Ok": Ok, "Some": Some, "Err": Err}[short](argv[0])
+            t = {"f": {"name": short, "path": path, "full": path}, "sp": "fn-item %s" % path, "a": []}
+            r = self.call(None, 0, t, list(argv), depth + 1)
+            if r is not TOP and r is not None:
+                return r
+            if short in ("from", "into", "to_owned", "to_vec", "clone", "copied", "cloned") and len(argv) == 1:
+                return argv[0]
+            return Tok("%s(%s)" % (short, ",".join(self.tokname(x) for x in argv)))
         raise Unsupported("callback is not a known closure")
 
     def option_result(self, name, d0, a0, args, t, fid, depth, site):
@@ -888,6 +903,36 @@ class Interp:
             return callf(args[1], [pay]) if good else Int(1)
         if name == "and_then":
             return callf(args[1], [pay]) if good else d0
+        if name == "filter" and is_opt:
+            if not good:
+                return NONE
+            nm = "optpayload#%d" % (len(self.heap) + 1)
+            self.heap[nm] = pay
+            r = self.deref_val(callf(args[1], [("ref", ("H", nm, ()))]))
+            if is_int(r):
+                return Some(self.heap[nm]) if r[1] else NONE
+            return NOTHANDLED
+        if name in ("inspect", "inspect_err"):
+            if good == (name == "inspect"):
+                nm = "optpayload#%d" % (len(self.heap) + 1)
+                self.heap[nm] = pay
+                callf(args[1], [("ref", ("H", nm, ()))])
+            return d0
+        if name == "or":
+            return d0 if good else args[1]
+        if name == "or_else":
+            return d0 if good else callf(args[1], [] if is_opt else [pay])
+        if name == "and":
+            return args[1] if good else d0
+        if name == "map_or_else":
+            return callf(args[2], [pay]) if good else callf(args[1], [] if is_opt else [pay])
+        if name == "flatten" and is_opt:
+            return pay if good else NONE
+        if name == "zip" and is_opt:
+            o = self.deref_val(args[1])
+            if o is not None and o[0] == "adt" and o[1] == OPTION:
+                return Some(("tuple", [pay, o[3].get(0, TOP)])) if (good and o[2] == 1) else NONE
+            return NOTHANDLED
         if name in ("ok_or", "ok_or_else", "context", "with_context") and is_opt:
             if good:
                 return Ok(pay)
@@ -996,8 +1041,9 @@ def run_async(facts, path, args, heap=None, oracle=None, inline=(), bind=None):
 
 
 def run_coroutine(facts, path, captures, heap=None, oracle=None, inline=(), bind=None):
-    """evaluate an `async` block's coroutine body on its own: `captures` maps the captured variables' names to values
-    (others become tokens named after the variable). Returns (output, interpreter)."""
+    """evaluate an `async` block's / `async fn`'s coroutine body on its own: `captures` maps the captured variables' (resp.
+    parameters') names to values, or is a function (name, type) -> value | None; others become tokens named after the
+    variable. Returns (output, interpreter)."""
     b = facts.bodies[path]
     if b.rec.get("closure_kind") != "coroutine":
         raise Unsupported("%s is not a coroutine body" % path)
@@ -1005,7 +1051,9 @@ def run_coroutine(facts, path, captures, heap=None, oracle=None, inline=(), bind
     for nm, pl in (b.upvars or {}).items():
         fld = [pr for pr in pl["p"] if pr[0] == "field"]
         if fld:
-            caps[fld[0][1]] = captures.get(nm, Tok(nm))
+            ty = fld[0][3] if len(fld[0]) > 3 else ""
+            v = captures(nm, ty) if callable(captures) else captures.get(nm)
+            caps[fld[0][1]] = v if v is not None else Tok(nm)
     n = (max(caps) + 1) if caps else 0
     env = ("closure", path, [caps.get(j, Tok("cap%d" % j)) for j in range(n)])
     it = Interp(facts, oracle, inline=inline, bind=bind)
